@@ -178,7 +178,7 @@ class CWorld:
             add = {}
             for q in list(d):
                 if q == src or q.startswith(pre):
-                    nq = dst + q[len(src):]
+                    nq = dst if q == src else dst.rstrip("/") + "/" + q[len(pre):]
                     if on:
                         add[nq] = json.loads(json.dumps(d[q]))
                     if move:
@@ -1468,6 +1468,10 @@ def op_pack(w, op):
     fpath = os.path.join(w.scratch, "files", f"f{int(op['seed']) % 3}.bin")
     with open(fpath, "wb") as f:
         f.write(data)
+    # the simulator owns the file clock: a rewritten source keeps its old timestamps (as after
+    # cp -p / rsync -t / a coarse clock), so nothing may be keyed on path + size + mtime
+    os.utime(fpath, ns=(1_700_000_000_000_000_000, 1_700_000_000_000_000_000))
+    w.probe("pack_source_mtime_pinned")
     if op.get("via_symlink"):
         # the source path is a symbolic link to the file
         lpath = os.path.join(w.scratch, "files", f"l{int(op['seed']) % 3}.lnk")
@@ -1504,6 +1508,41 @@ def op_pack(w, op):
                     raise Violation("C17", "marker-stored", f"[{dv.kind}] the IH5 deletion marker value was stored instead of being rejected")
                 if not r[1].startswith("ValueError"):
                     raise Violation("C17", "marker-not-loud", f"[{dv.kind}] packing the deletion marker value raised {r[1]}, expected ValueError")
+        # other spellings of the same value (IH5 drivers only; HDF5 knows no marker)
+        for dv in w.drv:
+            if dv.kind == "h5":
+                continue
+            g0 = dv.mc[base]
+            t2 = target + "_m"
+            spellings = [
+                ("0-dim array", lambda: g0.__setitem__(t2, np.array(np.void(b"\x7f")))),
+                ("create_dataset(data=marker)", lambda: g0.create_dataset(t2, data=np.void(b"\x7f"))),
+                ("one-field record", lambda: g0.__setitem__(t2, np.array((0x7F,), dtype=[("a", "u1")])[()])),
+            ]
+            for what, fn2 in spellings:
+                try:
+                    fn2()
+                    stored = True
+                except Exception as e:
+                    stored, err = False, e
+                if stored or t2 in g0:
+                    vis = t2 in g0
+                    raise Violation("C17", "marker-stored", f"[{dv.kind}] the IH5 deletion marker value given as {what} was accepted instead of being rejected (node visible afterwards: {vis})", shape=what)
+                if not isinstance(err, ValueError):
+                    raise Violation("C17", "marker-not-loud", f"[{dv.kind}] the deletion marker value given as {what} raised {type(err).__name__}, expected ValueError", shape=what)
+            # in-place assignment to an existing one-byte dataset
+            g0[t2] = np.void(b"\x01")
+            try:
+                g0[t2][()] = np.void(b"\x7f")
+                stored = True
+            except Exception as e:
+                stored, err = False, e
+            gone = t2 not in g0
+            if not gone:
+                del g0[t2]
+            if stored or gone:
+                raise Violation("C17", "marker-stored", f"[{dv.kind}] dataset[()] = <deletion marker value> was accepted (node {'vanished' if gone else 'still listed'})", shape="assign")
+            w.probe("deletion_marker_spellings_refused")
         # realign the plain driver and the reference: remove the node again
         del w.ref[full]
         for dv in w.drv:
